@@ -456,3 +456,55 @@ def run(prog: Program, chk: Check) -> None:
     guard(chk, r20_5, prog, chk)
     guard(chk, r20_6, prog, chk)
     guard(chk, r20_7, prog, chk)
+    guard(chk, r20_8, prog, chk)
+
+
+# ------------------------------------------------------------------- R20.8
+def r20_8(prog: Program, chk: Check) -> None:
+    from . import assign_model as amod
+    from . import call_model as cmod
+
+    chk.rule(
+        "R20.8",
+        "the variables an evaluator sees for omitted arguments are the documented ones, as a finite model: Signature.check_call_preprocessed / bind_arguments / "
+        "check_call_with_bound_args (the call model of C06) are interpreted for an evaluated function `f(p0: int = ..., p1: int = 1)` and calls with 0, 1 and 2 arguments, with an "
+        "evaluator that records what it is given: an omitted argument whose default is `...` has the type of the parameter's annotation, an omitted argument with a literal default "
+        "X has Literal[X], a provided argument has its own type, and the positions are DEFAULT for the omitted ones (docs/type_evaluation.md, `with_defaults`)",
+        floor=2,
+    )
+    m = cmod.CallModel(prog)
+    params = [("POSITIONAL_OR_KEYWORD", "...", "int"), ("POSITIONAL_OR_KEYWORD", True, "int")]
+    wrong, crashes = [], []
+    n = 0
+
+    def show(v) -> str:
+        if isinstance(v, amod.V):
+            if v._kind == "KnownValue":
+                return f"Literal[{v._attrs['val']!r}]"
+            if v._kind == "TypedValue":
+                return getattr(v._attrs["typ"], "__name__", str(v._attrs["typ"]))
+            return v._kind
+        return repr(v)
+
+    for positionals in ((), (5,), (5, 2)):
+        n += 1
+        probe: List[object] = []
+        r = m.run(params, list(positionals), {}, evaluator_probe=probe)
+        d = {"evaluator": "def f(p0: int = ..., p1: int = 1)", "call": f"f({', '.join(map(repr, positionals))})"}
+        if isinstance(r, tuple) and r and r[0] == "crash":
+            crashes.append({**d, "error": r[1]})
+            continue
+        if len(probe) != 1:
+            wrong.append({**d, "problem": f"the evaluator was consulted {len(probe)} times"})
+            continue
+        varmap, positions = probe[0]  # type: ignore[misc]
+        want = {"p0": "int" if len(positionals) < 1 else "Literal[5]", "p1": "Literal[1]" if len(positionals) < 2 else "Literal[2]"}
+        got = {k: show(v) for k, v in varmap.items()}
+        want_pos = {"p0": "DEFAULT" if len(positionals) < 1 else "0", "p1": "DEFAULT" if len(positionals) < 2 else "1"}
+        got_pos = {k: str(v) for k, v in positions.items()}
+        if got != want or got_pos != want_pos:
+            wrong.append({**d, "variables": got, "documented": want, "positions": got_pos, "documented positions": want_pos})
+    chk.model_evaluations += n
+    site = prog.site("signature", prog.func("signature", "Signature.check_call_with_bound_args"))
+    chk.ob("R20.8", "signature::Signature.check_call_with_bound_args::evaluator-variables-of-omitted-arguments", not wrong, site, f"{n} calls, {len(wrong)} hand the evaluator other variables" + (f"; first: {wrong[0]}" if wrong else ""), witness=wrong[:3])
+    chk.ob("R20.8", "signature::Signature.check_call_with_bound_args::evaluator-variables::no-crash", not crashes, site, f"{len(crashes)} crashes" + (f"; first: {crashes[0]}" if crashes else ""), witness=crashes[:3])
